@@ -341,6 +341,11 @@ pub fn c02_case(c: &Case, r: &mut Rng) -> CaseOut {
                 out.tags.push("nondefault-corrections".into());
             }
             // model tie: the whole analysis under the estimator's parameters, byte for byte
+            // the estimator's vector must lie in the Lean predicate EstimatorRange (hypothesis `hest`
+            // of recompress_decompress / verify_same)
+            if let Run::Done(Ok(v)) = guarded(|| vh::estimate(d)) {
+                out.requests.push((format!("inrange {}", vec_str(&v)), "yes".into()));
+            }
             if d.len() <= 6000 {
                 if let Run::Done(Ok(v)) = guarded(|| vh::estimate(d)) {
                     out.requests.push((
@@ -490,6 +495,7 @@ pub fn c08_case(c: &Case, r: &mut Rng, nperturb: usize, max_limit: u32) -> CaseO
     let mut vectors: Vec<(Vec<u32>, bool)> = Vec::new();
     if let Some(v) = &est {
         vectors.push((v.clone(), true));
+        out.requests.push((format!("inrange {}", vec_str(v)), "yes".into()));
         // the front part of the estimator (strategy, window, block size, add policy) against the model
         if d.len() <= 20000 {
             out.requests.push((
